@@ -7,7 +7,8 @@ HARNESS = "harness/core/internal/integration_tests/c06_relay_test.go"
 
 def _shard(name, i, n, tiers):
     return job(name, "core", "./internal/integration_tests/", "integration_tests", [KIT, HARNESS], "^TestVerifC06",
-               ["c06-relay-%dof%d" % (i + 1, n), "c06-parallel-%dof%d" % (i + 1, n)], race=False, timeout_quick=600, timeout_thorough=3600,
+               ["c06-relay-%dof%d" % (i + 1, n), "c06-parallel-%dof%d" % (i + 1, n), "c06-churn-%dof%d" % (i + 1, n)],
+               race=False, timeout_quick=600, timeout_thorough=3600,
                tiers=tiers, env={"VERIF_C06_SHARD": "%d/%d" % (i, n)})
 
 
@@ -23,7 +24,12 @@ PROP = {
     "min_events": 3000,
     "rule": ("PRNG worlds (virtual time, one-way latency 1..50 ms, loss 0..3 % in veto-free worlds, traffic logger "
              "present 4/5 with 0..3 ms answer delay): 'exact' worlds of 2..6 users with ONE relay each (own client and "
-             "user id) and 'parallel' worlds of one user with 1..32 concurrent streams. Relay script = mode in "
+             "user id), 'parallel' worlds of one user with 1..32 concurrent streams, and 'churn' worlds (own part, "
+             "GOMAXPROCS(1)): 5..8 rounds back to back on one server; per round relay A's target half-closes while A's client "
+             "keeps uploading, the (harness-owned, slow) EventLogger.TCPError holds the server 80..300 ms between the relay "
+             "function returning and the close of A's two ends, and in that window 2..3 relays B of other users start and "
+             "stream both ways with a logger taking 0.3..2 ms per chunk -- anything shared between a relay being torn down "
+             "and a starting one shows as foreign bytes. Relay script = mode in "
              "{quiesce, c_close_idle, t_close_idle, c_close_mid, t_close_mid, both_close, t_error, dial_fail} x sizes "
              "0..2 MiB per direction x write chunking 1..64 KiB x pacing sleeps x client read buffer 1..64 KiB x fast "
              "open on/off (late first Read) x veto at LogTraffic call n in {1,2,3..20} one-shot or sticky, answered at once "
